@@ -18,6 +18,8 @@ pub enum Fam {
     To,
     Transform,
     Transform2,
+    Transform3,
+    Transform4,
     /// closure sees values only: evaluations are counted
     CumulativeTransformedBinary,
     // no closure: outputs only
@@ -181,6 +183,36 @@ where
                 },
                 &exit,
             ),
+            // the two re-importable sources sit in the LAST positions of the three- and four-source families
+            Fam::Transform3 => out.compute_transform3(
+                mf,
+                s3.v(),
+                s1.v(),
+                s2.v(),
+                |(i, _a, b, c, ..)| {
+                    if wrong(i) {
+                        return (i + 1, 0);
+                    }
+                    log(i);
+                    (i, b * 5 + c)
+                },
+                &exit,
+            ),
+            Fam::Transform4 => out.compute_transform4(
+                mf,
+                s3.v(),
+                s3.v(),
+                s1.v(),
+                s2.v(),
+                |(i, _a, _b, c, d, ..)| {
+                    if wrong(i) {
+                        return (i + 1, 0);
+                    }
+                    log(i);
+                    (i, c * 7 + d * 3)
+                },
+                &exit,
+            ),
             Fam::CumulativeTransformedBinary => {
                 let start = mf.min(out.len());
                 let mut k = 0usize;
@@ -209,7 +241,7 @@ where
     let governed = |s1: &Src, s2: &Src, s3: &Src| match fam {
         Fam::To | Fam::Transform | Fam::Cumulative | Fam::Sum | Fam::Max => s1.m.len(),
         Fam::Transform2 | Fam::CumulativeTransformedBinary | Fam::Add | Fam::Multiply => s1.m.len().min(s2.m.len()),
-        Fam::SumOfOthers => s1.m.len().min(s2.m.len()).min(s3.m.len()),
+        Fam::SumOfOthers | Fam::Transform3 | Fam::Transform4 => s1.m.len().min(s2.m.len()).min(s3.m.len()),
     };
     let dep_version = |s1: &Src, s2: &Src, s3: &Src, to_version: u32| -> Version {
         let (v1, v2, v3) = (s1.v().version(), s2.v().version(), s3.v().version());
@@ -218,7 +250,8 @@ where
             Fam::Transform | Fam::Cumulative | Fam::Max => v1,
             Fam::Sum => Version::new(2) + v1,
             Fam::Transform2 | Fam::CumulativeTransformedBinary | Fam::Add | Fam::Multiply => v1 + v2,
-            Fam::SumOfOthers => v1 + v2 + v3,
+            Fam::SumOfOthers | Fam::Transform3 => v1 + v2 + v3,
+            Fam::Transform4 => v3 + v3 + v1 + v2,
         }
     };
     let mut had_change_on_nonempty = false;
@@ -230,11 +263,11 @@ where
         let mut changed = false;
         if st.bump[0] {
             s1.bump(&db, case.seed, st.bump_leaves_empty, st.down)?;
-            changed |= matches!(fam, Fam::Transform | Fam::Transform2 | Fam::CumulativeTransformedBinary | Fam::Add | Fam::Cumulative | Fam::Sum | Fam::Max | Fam::SumOfOthers | Fam::Multiply);
+            changed |= matches!(fam, Fam::Transform3 | Fam::Transform4 | Fam::Transform | Fam::Transform2 | Fam::CumulativeTransformedBinary | Fam::Add | Fam::Cumulative | Fam::Sum | Fam::Max | Fam::SumOfOthers | Fam::Multiply);
         }
         if st.bump[1] {
             s2.bump(&db, case.seed, st.bump_leaves_empty, st.down)?;
-            changed |= matches!(fam, Fam::Transform2 | Fam::CumulativeTransformedBinary | Fam::Add | Fam::SumOfOthers | Fam::Multiply);
+            changed |= matches!(fam, Fam::Transform3 | Fam::Transform4 | Fam::Transform2 | Fam::CumulativeTransformedBinary | Fam::Add | Fam::SumOfOthers | Fam::Multiply);
         }
         if st.bump_own && fam == Fam::To {
             if st.down && to_version > 1 {
@@ -278,7 +311,7 @@ where
             BatchSel::K17 => Some(17 * sz),
         });
         if let Some(k) = st.interrupt
-            && matches!(fam, Fam::To | Fam::Transform | Fam::Transform2)
+            && matches!(fam, Fam::To | Fam::Transform | Fam::Transform2 | Fam::Transform3 | Fam::Transform4)
         {
             // an interrupted call: it may validate the version (and reset) and push some results, then fails.
             // Nothing is asserted about it; the following steps see whatever it left in the buffer.
@@ -339,7 +372,7 @@ where
                 ));
             }
             match fam {
-                Fam::To | Fam::Transform | Fam::Transform2 => {
+                Fam::To | Fam::Transform | Fam::Transform2 | Fam::Transform3 | Fam::Transform4 => {
                     let mut seen = logged.clone();
                     seen.sort();
                     seen.dedup();
@@ -368,7 +401,7 @@ where
                 return Err(format!("{}: element {i} (below the starting index) changed from {} to {} although the version is unchanged", ctx(), before[i], after[i]));
             }
             match fam {
-                Fam::To | Fam::Transform | Fam::Transform2 => {
+                Fam::To | Fam::Transform | Fam::Transform2 | Fam::Transform3 | Fam::Transform4 => {
                     if let Some(&i) = logged.iter().find(|&&i| i < keep) {
                         return Err(format!("{}: index {i} (< min(starting index, stored length) = {keep}) was re-evaluated although the version is unchanged", ctx()));
                     }
@@ -436,6 +469,8 @@ impl Prop for P {
             2 => Just(Fam::To),
             2 => Just(Fam::Transform),
             2 => Just(Fam::Transform2),
+            1 => Just(Fam::Transform3),
+            1 => Just(Fam::Transform4),
             1 => Just(Fam::CumulativeTransformedBinary),
             1 => Just(Fam::Add),
             1 => Just(Fam::Cumulative),
@@ -467,7 +502,7 @@ impl Prop for P {
     }
 
     fn rule() -> String {
-        "sequences of compute calls for one representative per compute family (compute_to with an explicit version, compute_transform, compute_transform2, compute_cumulative_transformed_binary, compute_add, compute_cumulative, compute_sum, compute_max, compute_sum_of_others, compute_multiply) on an EagerVec over raw or Pco storage. Between calls: sources are re-imported under a NEW version (forced import; their data is replaced by data that differs at every index), the explicit version changes (compute_to), sources grow; the caller passes a starting index as if nothing below the stored length had changed (at / below it, a fraction, 0); batch limit 1/3/17/default; optional flush + re-import of the result; for the index-closure families 1 call in 7 is interrupted (the closure answers with a wrong index at its k-th evaluation: the call fails and what it pushed stays buffered, unstored). Closures log every index they evaluate. Oracle: combined version changed => the result equals the from-scratch result under the new inputs at every index (an element equal to the value stored under the old version is reported as mixing) and the closure was evaluated for exactly 0..len; version unchanged => no index below min(starting index, stored length) is evaluated and those elements are bit-identical, result equals from scratch; header().computed_version() == own version + dependency versions after every call and after flush + re-import. Non-trivial: a history with a version change on a non-empty result AND an unchanged-version resume.".into()
+        "sequences of compute calls for one representative per compute family (compute_to with an explicit version, compute_transform, compute_transform2, compute_transform3, compute_transform4 (the sources that change version in the last positions), compute_cumulative_transformed_binary, compute_add, compute_cumulative, compute_sum, compute_max, compute_sum_of_others, compute_multiply) on an EagerVec over raw or Pco storage. Between calls: sources are re-imported under a NEW version (forced import; their data is replaced by data that differs at every index), the explicit version changes (compute_to), sources grow; the caller passes a starting index as if nothing below the stored length had changed (at / below it, a fraction, 0); batch limit 1/3/17/default; optional flush + re-import of the result; for the index-closure families 1 call in 7 is interrupted (the closure answers with a wrong index at its k-th evaluation: the call fails and what it pushed stays buffered, unstored). Closures log every index they evaluate. Oracle: combined version changed => the result equals the from-scratch result under the new inputs at every index (an element equal to the value stored under the old version is reported as mixing) and the closure was evaluated for exactly 0..len; version unchanged => no index below min(starting index, stored length) is evaluated and those elements are bit-identical, result equals from scratch; header().computed_version() == own version + dependency versions after every call and after flush + re-import. Non-trivial: a history with a version change on a non-empty result AND an unchanged-version resume.".into()
     }
 
     fn mandatory_labels() -> &'static [&'static str] {
